@@ -317,12 +317,32 @@ func c01RunInner(w *explore.Worker, c c01Case) {
 		if err != nil || pf.InfoProblem != "" || pf.Name != string(name) {
 			w.Violation("C01/flattenedFileObject/reference-parser-disagrees", fmt.Sprintf("%v %s", err, pf.InfoProblem), 0, cs)
 		}
-		info2, fc, dsz, err := hotline.VerifFFOReadFrom(bytes.NewReader(ref.FlatFile(rf2(rf), pat(5, 1), nil)))
-		if err != nil || !bytes.Equal(info2.Name, name) || !bytes.Equal(info2.Comment, comment) || fc != [2]byte{0, 2} || dsz != 5 {
-			w.Violation("C01/flattenedFileObject/decode", fmt.Sprintf("ReadFrom: err=%v name %d comment %d forks %v data %d", err, len(info2.Name), len(info2.Comment), fc, dsz), 0, cs)
+		// decoding reads from a stream: the same bytes delivered whole, one at a time, in pieces of 7 and cut
+		// once inside the information fork yield the same object
+		enc := ref.FlatFile(rf2(rf), pat(5, 1), nil)
+		for _, piece := range []int{0, 1, 7, 24 + 16 + 72 + 1} {
+			var rd io.Reader = bytes.NewReader(enc)
+			if piece > 0 {
+				rd = &pieceReader{b: enc, n: piece}
+			}
+			info2, fc, dsz, err := func() (i hotline.FlatFileInformationFork, f [2]byte, d int64, e error) {
+				defer func() {
+					if r := recover(); r != nil {
+						e = fmt.Errorf("panic: %v", r)
+					}
+				}()
+				return hotline.VerifFFOReadFrom(rd)
+			}()
+			if err != nil || !bytes.Equal(info2.Name, name) || !bytes.Equal(info2.Comment, comment) || fc != [2]byte{0, 2} || dsz != 5 {
+				w.Violation("C01/flattenedFileObject/decode", fmt.Sprintf("ReadFrom (reader delivering %d bytes per call, 0 = all): err=%v name %d comment %d forks %v data %d", piece, err, len(info2.Name), len(info2.Comment), fc, dsz), 0, cs)
+			}
 		}
 	case "FileHeader":
-		segs := [][]string{{"a"}, {"a", "b"}, {"dir", "sub", "x.txt"}, {string(pat(255, ch))}, {"", "x"}, {"a b", "é"}}[a%6]
+		long17 := make([]string, 17) // 17 items of 255 bytes: 4,388 bytes, more than the 4,096-byte start buffer of the item scanner
+		for i := range long17 {
+			long17[i] = string(pat(255, ch+byte(i)))
+		}
+		segs := [][]string{{"a"}, {"a", "b"}, {"dir", "sub", "x.txt"}, {string(pat(255, ch))}, {"", "x"}, {"a b", "é"}, long17, long17[:16]}[a%8]
 		fh := hotline.NewFileHeader(strings.Join(segs, "/"), b%2 == 1)
 		want := ref.ItemHeader(b%2 == 1, segs...)
 		// a folder-download item header: size, type, path (count + items); same layout as the upload item header
@@ -466,7 +486,11 @@ func c01RunInner(w *explore.Worker, c c01Case) {
 				fail("decode-int", fmt.Sprintf("%d bytes: %d err %v want %d", n, v, err, wantV))
 			}
 		}
-		segs := [][]string{{}, {"a"}, {"Top Level Bundle", "Second", "Cat"}, {string(pat(255, ch))}}[a%4]
+		long17 := make([]string, 17)
+		for i := range long17 {
+			long17[i] = string(pat(255, ch+byte(i)))
+		}
+		segs := [][]string{{}, {"a"}, {"Top Level Bundle", "Second", "Cat"}, {string(pat(255, ch))}, long17}[a%5]
 		np := hotline.Field{Data: ref.NewsPathBytes(segs...)}
 		if len(segs) == 0 {
 			np.Data = nil
@@ -540,6 +564,9 @@ func c01Cases(thorough bool) []c01Case {
 			add("NewsCategory", a, d, (a+d)%3, d)
 			add("FileHeader", a, d, 0, d)
 		}
+		if a < 2 {
+			add("FileHeader", 6+a, 1, 0, a) // paths longer than the item scanner's start buffer
+		}
 		for b := 0; b < 6; b++ {
 			add("InfoFork", a, b, a+b, a*b)
 			add("NewsArtList", a, b, a+1, b)
@@ -587,3 +614,25 @@ func replayC01(w *explore.Worker, raw json.RawMessage) {
 }
 
 func debugStack() []byte { return debug.Stack() }
+
+// pieceReader delivers b in pieces of at most n bytes (the first piece has n bytes, so that n marks a cut).
+type pieceReader struct {
+	b []byte
+	n int
+}
+
+func (p *pieceReader) Read(q []byte) (int, error) {
+	if len(p.b) == 0 {
+		return 0, io.EOF
+	}
+	k := p.n
+	if k > len(p.b) {
+		k = len(p.b)
+	}
+	if k > len(q) {
+		k = len(q)
+	}
+	copy(q, p.b[:k])
+	p.b = p.b[k:]
+	return k, nil
+}
